@@ -25,6 +25,7 @@ pub struct World {
     pub quiescing: bool,
     /// hash index frozen by the scheduler (C14), if any.
     pub frozen_hash: Option<usize>,
+    pub frozen_at_step: Option<u64>,
     /// Kinds of the operation executed in the current step.
     pub op_kind: &'static str,
     /// Were only non-trampoline HTLCs delivered by the current op?
